@@ -21,9 +21,17 @@ func init() {
 			"Arguments[i] and Arguments[i+1] of one induction variable running 0,2,4,… R2: IsAllowedToSaveUnderKey accepts only under len(key) < len(prefix) or !Equal(key[:len(prefix)], prefix) with the constant ELROND. R3: every other " +
 			"storage write below any of the 23 entry points uses a key append(P, token…[, nonce bytes…]) whose prefix object P is initialised only from the constants ELRONDesdt / ELRONDroleesdt / ELRONDnonce and whose token part is an " +
 			"element of the call's own Arguments. R4: the account written is the sender or destination parameter or LoadAccount(a) with a the protocol's destination argument or SystemAccountAddress. R5: account-level mutators are called " +
-			"only by the function that owns them (who-may-call table); RemoveAccount/Commit/RevertToSnapshot/RecreateTrie/SetOwnerAddress/IncreaseNonce by nobody. Does NOT decide: the frame condition as an observed world diff, stored values.",
+			"only by the function that owns them (who-may-call table); RemoveAccount/Commit/RevertToSnapshot/RecreateTrie/SetOwnerAddress/IncreaseNonce by nobody. R6: the classifier behind the non-contract guard reads exactly bytes [0,8) of the address (shared with C20-R5). Does NOT decide: the frame condition as an observed world diff, stored values.",
 		Trusted: []string{"the interfaces of interface.go are the only way to reach world state (no reflection/unsafe: C13-R3)", "protocol argument layout for destination addresses"},
-		Rules:   []func(*Ctx){c05r1, c05r2, c05r3, c05r5},
+		Rules:   []func(*Ctx){c05r1, c05r2, c05r3, c05r5, c05r6},
+	})
+}
+
+// c05r6: "a non-contract account": the guard's classifier must mean what the address layout says — bytes [0,8) zero, never
+// the VM-type bytes (shared with C20-R5; a classifier that demands zero VM-type bytes calls every deployed contract a user).
+func c05r6(c *Ctx) {
+	c.shareRule(c20r5, "C20-R5", "C05-R6", "the non-contract guard's classifier reads exactly the documented byte range of the address", func(o Oblig) bool {
+		return strings.Contains(o.Func, "IsSmartContractAddress") || o.Kind == "anchor"
 	})
 }
 
